@@ -778,6 +778,8 @@ struct Best {
     hist: Vec<Ev>,
     what: String,
     extra: Value,
+    /// the few shortest histories that hit this fingerprint
+    shortest: Vec<((usize, Vec<usize>), Vec<String>)>,
 }
 
 #[derive(Default)]
@@ -798,7 +800,8 @@ struct Acc {
 }
 
 fn hist_rank(h: &[Ev]) -> (usize, Vec<usize>) {
-    let all = all_events();
+    static ALL: std::sync::OnceLock<Vec<Ev>> = std::sync::OnceLock::new();
+    let all = ALL.get_or_init(all_events);
     (h.len(), h.iter().map(|e| all.iter().position(|x| x == e).unwrap_or(usize::MAX)).collect())
 }
 
@@ -811,7 +814,15 @@ impl Acc {
         } else {
             e.count += 1;
         }
-        if e.count + e.count_order_dependent == 1 || hist_rank(hist) < hist_rank(&e.hist) {
+        let r = hist_rank(hist);
+        if e.shortest.len() < 4 || r < e.shortest.last().unwrap().0 {
+            // (rare after the first few witnesses)
+            e.shortest.push((r.clone(), hist.iter().map(|x| x.describe()).collect()));
+            e.shortest.sort();
+            e.shortest.dedup();
+            e.shortest.truncate(4);
+        }
+        if e.count + e.count_order_dependent == 1 || r < hist_rank(&e.hist) {
             e.hist = hist.to_vec();
             e.what = what;
             e.extra = extra;
@@ -1148,7 +1159,10 @@ pub fn run(ctx: Ctx) -> ! {
     let mut order: Vec<(&String, &Best)> = viols.iter().collect();
     order.sort_by_key(|(fp, b)| (hist_rank(&b.hist), (*fp).clone()));
     for (fp, b) in order {
-        ctx.violation(fp.clone(), format!("{} (shortest history: {} calls)", b.what, b.hist.len()), b.extra.clone());
+        let mut extra = b.extra.clone();
+        extra["shortest_histories_with_this_fingerprint"] = json!(b.shortest.iter().map(|x| x.1.clone()).collect::<Vec<_>>());
+        extra["witnesses_at_order_dependent_states_not_counted"] = json!(b.count_order_dependent);
+        ctx.violation(fp.clone(), format!("{} (shortest history: {} calls)", b.what, b.hist.len()), extra);
         for _ in 1..b.count.max(1) {
             ctx.violation(fp.clone(), "", Value::Null);
         }
